@@ -6,6 +6,12 @@ Correspondence: the REAL buildRemainingTreeAsLists / treeListToTuple / parseAsse
 Oracle (implementation alone): brute force over all elimination orders ending in the alternative winner, with
 "contradicts" defined from the meaning of the assertions, not from the tree code."""
 import contextlib
+import copy
+import os
+import random
+import subprocess
+import sys
+import tempfile
 import io
 import itertools
 import json
@@ -299,6 +305,8 @@ STYLES = ["sufficient", "sufficient", "almost", "almost", "sufficient_redundant"
 
 # ------------------------------------------------------------------ canonical forms of the implementation's output
 def cint(x):
+    if isinstance(x, int) and not isinstance(x, bool):
+        return x if x >= 0 else -99
     return int(x) if isinstance(x, str) and re.fullmatch(r"\d+", x) else -99
 
 
@@ -355,11 +363,24 @@ def canon_tuple(t, cint=cint):
     return ("N", -99, [])
 
 
-def run_tree(V, c, S, WO, IRV, live=None, f=cint):
+def wreck(t):
+    """what a caller may do to a tree it was given: empty the child lists, spoil the tag lists"""
+    if isinstance(t, list) and len(t) == 2 and isinstance(t[1], list):
+        for b in list(t[1]):
+            wreck(b)
+        t[1].clear()
+        t[0] = "gone"
+    elif isinstance(t, list) and len(t) == 1:
+        t[0].NEBTagList.append((77, True))
+        t[0].IRVTagList.clear()
+        t.append("junk")
+
+
+def run_tree(V, c, S, WO, IRV, live=None, f=cint, fz=False, again=False):
     """call the real code on fresh copies (it must not keep or alter them), or — live=(list, list) — on the caller's own
     long-lived list objects, which the caller edits in place between calls"""
     wo = [tuple(a) for a in WO] if live is None else live[0]
-    irv = [(a[0], set(a[1]), a[2]) for a in IRV] if live is None else live[1]
+    irv = [(a[0], frozenset(a[1]) if fz else set(a[1]), a[2]) for a in IRV] if live is None else live[1]
     s = set(S)
     buf = io.StringIO()
     with contextlib.redirect_stdout(buf), warnings.catch_warnings():
@@ -370,7 +391,20 @@ def run_tree(V, c, S, WO, IRV, live=None, f=cint):
         except Exception as e:  # noqa
             return {"exc": f"{type(e).__name__}: {e}"}
     mutated = s != set(S) or wo != [tuple(a) for a in WO] or any(x[1] != set(y[1]) for x, y in zip(irv, IRV))
-    return {"tree": canon_tree(t, f), "tuple": canon_tuple(tt, f), "raw_tuple": tt, "mutated_args": mutated}
+    res = {"tree": canon_tree(t, f), "tuple": canon_tuple(tt, f), "raw_tuple": tt, "mutated_args": mutated}
+    if again:           # the caller spoils the tree it got, then builds again with the same arguments
+        with contextlib.redirect_stdout(buf), warnings.catch_warnings():
+            warnings.simplefilter("ignore")
+            try:
+                tt1 = V.treeListToTuple(t)                      # converting twice must give the same thing
+                wreck(t)
+                t2 = V.buildRemainingTreeAsLists(c, set(S), wo, irv)
+                tt2 = V.treeListToTuple(t2)
+                res["rebuild_differs"] = canon_tree(t2, f) != res["tree"] or canon_tuple(tt2, f) != res["tuple"] or \
+                    canon_tuple(tt1, f) != res["tuple"]
+            except Exception as e:  # noqa
+                res["rebuild_differs"] = f"{type(e).__name__}: {e}"
+    return res
 
 
 # ------------------------------------------------------------------ oracle
@@ -442,10 +476,25 @@ def oracle_tree(case):
     walk(out["tree"], [])
     if out.get("mutated_args"):
         bad.append(("buildRemainingTreeAsLists alters its arguments", None))
+    if out.get("rebuild_differs"):
+        bad.append(("building the same tree again (after the caller altered the first result) gives a different tree", out["rebuild_differs"]))
     return bad
 
 
 # ------------------------------------------------------------------ parseAssertions: generation and running
+def reshape_log(x, r, depth=0, semantic=False):
+    """the same log with object keys in another order and unknown keys added, at every nesting level; the entries of the
+    'contests' / 'assertions' objects (whose keys are data) are only reordered"""
+    if isinstance(x, list):
+        return [reshape_log(v, r, depth + 1) for v in x]
+    if not isinstance(x, dict):
+        return x
+    items = [(k, reshape_log(v, r, depth + 1, semantic=(k in ("contests", "assertions")))) for k, v in x.items()]
+    if not semantic and depth > 0 and r.random() < 0.4:
+        items.append((r.choice(["note", "zz_extra", "Winner", "assertionType", "margin"]), r.choice([None, 1, "x", [], {}])))
+    r.shuffle(items)
+    return dict(items)
+
 def gen_parse_case(rng, cands):
     dialect = rng.choice(["rla", "rla", "raire"])
     winner = rng.choice(cands)
@@ -509,12 +558,34 @@ def gen_parse_case(rng, cands):
         if rng.random() < 0.3:
             f["Audit"] = {"note": "no seed here"}
         cid = rng.choice([None, 1])
-    return {"dialect": dialect, "file": f, "manifest": {"List": manifest}, "contest_id": cid}
+    # representation variants of the same legal file
+    pc = {"dialect": dialect, "file": f, "manifest": {"List": manifest}, "contest_id": cid, "variant": rng.choice(
+        ["plain", "plain", "sort_keys", "reshaped", "reshaped", "direct"])}
+    if pc["variant"] == "sort_keys":
+        pc["file"] = json.loads(json.dumps(f, sort_keys=True))           # re-serialised export
+    elif pc["variant"] == "reshaped":
+        pc["file"] = reshape_log(f, rng)
+    elif pc["variant"] == "direct":                                       # python objects handed over without a JSON round trip
+        for au in (list(f["contests"].values()) if dialect == "rla" else f["audits"]):
+            for d in au.get("assertion_json", []):
+                el = d["already_eliminated"]
+                if isinstance(el, list):
+                    el = rng.sample(el, len(el))
+                    d["already_eliminated"] = rng.choice([tuple(el), set(el), frozenset(el), el])
+        if dialect == "raire" and rng.random() < 0.6:                     # candidate ids as ints
+            pc["int_ids"] = True
+            for au in f["audits"]:
+                au["winner"] = int(au["winner"])
+                au["eliminated"] = [int(x) for x in au["eliminated"]]
+                for a in au["assertions"].values():
+                    a["winner"], a["loser"] = int(a["winner"]), int(a["loser"])
+    return pc
 
 
 def run_parse(V, pc):
-    f = json.loads(json.dumps(pc["file"]))          # as read from a file
+    f = copy.deepcopy(pc["file"]) if pc.get("variant") == "direct" else json.loads(json.dumps(pc["file"]))   # as read from a file
     m = json.loads(json.dumps(pc["manifest"]))
+    f0, m0 = copy.deepcopy(f), copy.deepcopy(m)
     buf = io.StringIO()
     with contextlib.redirect_stdout(buf), warnings.catch_warnings():
         warnings.simplefilter("ignore")
@@ -523,9 +594,26 @@ def run_parse(V, pc):
                 r = V.parseAssertions(f, m)
             else:
                 r = V.parseAssertions(f, m, pc["contest_id"])
+            changed = f != f0 or m != m0 or [list(d) for d in _order(f)] != [list(d) for d in _order(f0)]
+            raw1 = copy.deepcopy(r)
+            r[2].append(("zz", "zz", True))              # the caller fiddles with the first result, then parses again
+            r[3].clear()
+            r[1].clear()
+            r2 = V.parseAssertions(f, m) if pc["contest_id"] is None else V.parseAssertions(f, m, pc["contest_id"])
         except Exception as e:  # noqa
             return {"exc": f"{type(e).__name__}: {e}"}
-    return {"raw": r, "file_after": f}
+    return {"raw": raw1, "file_after": f, "changed_input": changed, "second_differs": canon_parse(r2) != canon_parse(raw1)}
+
+
+def _order(x):
+    """key orders of all objects inside x (dict equality ignores order, parseAssertions does not)"""
+    if isinstance(x, dict):
+        yield list(x.keys())
+        for v in x.values():
+            yield from _order(v)
+    elif isinstance(x, list):
+        for v in x:
+            yield from _order(v)
 
 
 def name_code(s):
@@ -569,6 +657,10 @@ def oracle_parse(pc, out):
             WO.append((cint(a["loser"]), cint(a["winner"]), pr))
     got = canon_parse(out["raw"])
     bad = []
+    if out.get("changed_input"):
+        bad.append(("parseAssertions alters the log / manifest it is given", None))
+    if out.get("second_differs"):
+        bad.append(("parsing the same log again (after the caller altered the first result) gives different tuples", None))
     if got["WO"] != WO:
         bad.append(("parseAssertions: not-eliminated-before tuples differ from the assertion JSON", {"got": got["WO"], "json": WO}))
     if [(x, sorted(set(E)), p) for x, E, p in got["IRV"]] != IRV:
@@ -643,7 +735,7 @@ def audit_lit(au, dial):
     def det(d):
         el = d["already_eliminated"]
         return "(mkAdetail %s %s %s %s)" % (ty[d.get("assertion_type")], C.zlit(cint(d["winner"])), C.zlit(cint(d["loser"])),
-                                            C.listlit([C.zlit(cint(y)) for y in (el if isinstance(el, list) else [])]))
+                                            C.listlit([C.zlit(cint(y)) for y in (sorted(el, key=repr) if isinstance(el, (list, tuple, set, frozenset)) else [])]))
     js = "(Some %s)" % C.listlit([det(d) for d in au["assertion_json"]]) if "assertion_json" in au else "None"
     return "(mkAudit %s %s %s %s %s)" % (C.zlit(cint(w)), C.listlit([C.zlit(cint(x)) for x in au.get("candidates", [])]),
                                          C.listlit([C.zlit(cint(x)) for x in au.get("eliminated", [])]), asr, js)
@@ -656,7 +748,8 @@ def parse_case_lit(k):
         fl = "(RLALog %s)" % C.listlit(["(%s, %s)" % (C.zlit(int(i)), audit_lit(a, "rla")) for i, a in f["contests"].items()])
     else:
         fl = "(Raire %s)" % C.listlit([audit_lit(a, "raire") for a in f["audits"]])
-    man = C.listlit(["(%s, %s)" % (C.zlit(int(e["Id"])), C.zlit(name_code(e["Description"]))) for e in pc["manifest"]["List"]])
+    man = C.listlit(["(%s, %s)" % (C.zlit(int(e["Id"])), C.zlit(name_code(e["Description"]))) for e in pc["manifest"]["List"]]
+                    if not pc.get("int_ids") else [])          # str(Id) == <int id> is never true: no name is found
     cid = pc["contest_id"]
     pair = lambda p: "(%s, %s)" % (C.zlit(p[0]), C.zlit(p[1]))  # noqa
     return "(mkParseCase %s %s %s %s %s %s %s)" % (
@@ -668,6 +761,69 @@ def parse_case_lit(k):
 def parse_case_json(k):
     return {"assertion_file": k["pc"]["file"], "candidate_manifest": k["pc"]["manifest"], "contest_id": k["pc"]["contest_id"],
             "implementation": C.jsonable(k["got"])}
+
+
+def printed_results_check(V, rng, sample, stats):
+    """buildPrintedResults(winner, nonwinners-with-names, WOLosers, IRVElims) with the drawing library stubbed: the tuple trees
+    it hands to the drawing routine must be, per alternative winner, the tree of the direct construction, and must show an
+    unpruned leaf exactly when an order survives"""
+    bad = []
+    real_draw, real_caption = V.svgling.draw_tree, V.Caption
+    try:
+        for k in sample:
+            if rng.random() < 0.5:
+                continue
+            allc = list(k["S"]) + [k["c"]]
+            w = rng.choice(allc)
+            nonw = [x for x in allc if x != w]
+            rng.shuffle(nonw)
+            f = mapper(k)
+            drawn = []
+            V.svgling.draw_tree = lambda t, *a, **kw: drawn.append(t) or t
+            V.Caption = lambda tree, text: (tree, text)
+            wo = [tuple(a) for a in k["WO"]]
+            irv = [(a[0], set(a[1]), a[2]) for a in k["IRV"]]
+            buf = io.StringIO()
+            with contextlib.redirect_stdout(buf), warnings.catch_warnings():
+                warnings.simplefilter("ignore")
+                try:
+                    V.printAssertions(wo, irv)
+                    out = V.buildPrintedResults(w, [(x, "name " + str(x)) for x in nonw], wo, irv)
+                except Exception as e:  # noqa
+                    bad.append(("buildPrintedResults / printAssertions raises", k, f"{type(e).__name__}: {e}"))
+                    continue
+            stats["printed_results_calls"] = stats.get("printed_results_calls", 0) + 1
+            if len(drawn) != len(nonw) or len(out) != len(nonw):
+                bad.append(("buildPrintedResults does not draw one tree per apparent non-winner", k, {"trees": len(drawn), "non-winners": len(nonw)}))
+                continue
+            for x, t in zip(nonw, drawn):
+                Sx = [y for y in allc if y != x]
+                direct = run_tree(V, x, Sx, k["WO"], k["IRV"], f=f)
+                surv = surviving_orders(Sx, x, k["WO"], k["IRV"])
+                ct = canon_tuple(t, f)
+                if surv is not None and tuple_has_unpruned(ct) != bool(surv):
+                    bad.append(("tree drawn by buildPrintedResults: unpruned leaf shown != an elimination order survives", k,
+                                {"alternative_winner": x, "drawn": t, "surviving": surv[:1]}))
+                elif ct != direct.get("tuple"):
+                    bad.append(("buildPrintedResults draws a different tree than buildRemainingTreeAsLists builds", k,
+                                {"alternative_winner": x, "drawn": t, "direct": direct.get("raw_tuple")}))
+            if wo != [tuple(a) for a in k["WO"]] or [a[1] for a in irv] != [set(a[1]) for a in k["IRV"]]:
+                bad.append(("buildPrintedResults / printAssertions alters the assertion lists", k, None))
+    finally:
+        V.svgling.draw_tree, V.Caption = real_draw, real_caption
+    return bad
+
+
+if __name__ == "__main__":          # fresh-process helper
+    sys.path.insert(0, C.REPO)
+    V_ = VIS()
+    outs = []
+    for j in json.load(open(sys.argv[1])):
+        k_ = {"idmap": None if j["idmap"] is None else {a: b for a, b in j["idmap"]}}
+        r_ = run_tree(V_, j["c"], j["S"], [tuple(a) for a in j["WO"]], [(a[0], set(a[1]), a[2]) for a in j["IRV"]], f=mapper(k_))
+        outs.append(json.loads(json.dumps([r_.get("tree"), r_.get("tuple")])))
+    print(json.dumps(outs))
+    sys.exit(0)
 
 
 # ------------------------------------------------------------------ entry point
@@ -824,9 +980,47 @@ def run(ctx, res):
         n = rng.choice([9, 10, 10, 11, 11])
         ids, cb, WO, IRV, kind = gen_big_world(rng, n)
         tcases.append({"c": cb, "S": ids[:-1], "WO": WO, "IRV": IRV, "style": "big-" + kind, "ncand": n})
+    # pending builds run in a random interleaving of all contests; some are built again later and must come out the same
+    pending = [k for k in tcases if "impl" not in k]
+    done = []
+    for k in rng.sample(pending, len(pending)):
+        k["fz"] = rng.random() < 0.15
+        k["impl"] = run_tree(V, k["c"], k["S"], k["WO"], k["IRV"], f=mapper(k), fz=k["fz"], again=(rng.random() < 0.12 and k["ncand"] <= 7))
+        done.append(k)
+        if rng.random() < 0.06:
+            k0 = rng.choice(done[-40:])
+            stats["revisits"] = stats.get("revisits", 0) + 1
+            r2 = run_tree(V, k0["c"], k0["S"], k0["WO"], k0["IRV"], f=mapper(k0))
+            if (r2.get("tree"), r2.get("tuple")) != (k0["impl"].get("tree"), k0["impl"].get("tuple")):
+                k0["impl"]["rebuild_differs"] = "built again after other contests: different tree"
+    # the drawing helper must draw exactly the trees that buildRemainingTreeAsLists builds (svgling stubbed out)
+    printed = printed_results_check(V, rng, [k for k in tcases if k["ncand"] <= 6 and k["c"] not in k["S"]][:ctx.n(200, 800)], stats)
+    for what, k, detail in printed:
+        res.oracle_violations.append({"what": what, "input": tree_case_json(k), "observed": C.jsonable(detail), "signature": "C20:" + what})
+    res.oracle_runs += stats.get("printed_results_calls", 0)
+    # a sample re-built in a FRESH process, in reverse order
+    pick = [k for k in tcases if "tree" in k["impl"] and k["ncand"] <= 7]
+    pick = rng.sample(pick, min(len(pick), ctx.n(60, 300)))[::-1]
+    jobs = [{"c": k["c"], "S": k["S"], "WO": [list(a) for a in k["WO"]], "IRV": [[a[0], sorted(a[1], key=repr), a[2]] for a in k["IRV"]],
+             "idmap": (None if k.get("idmap") is None else [[a, b] for a, b in k["idmap"].items()])} for k in pick]
+    fd, jp = tempfile.mkstemp(prefix="c20_jobs_", suffix=".json", dir="/dev/shm" if os.path.isdir("/dev/shm") else None)
+    with os.fdopen(fd, "w") as fh:
+        json.dump(jobs, fh)
+    try:
+        pr = subprocess.run([sys.executable, "-m", "harness.c20", jp], stdout=subprocess.PIPE, stderr=subprocess.PIPE, text=True,
+                            timeout=300, cwd=C.VERIF)
+        fresh = json.loads(pr.stdout.strip().splitlines()[-1]) if pr.returncode == 0 and pr.stdout.strip() else None
+    finally:
+        os.unlink(jp)
+    if fresh is None:
+        raise RuntimeError("fresh-process run failed: " + pr.stderr[-500:])
+    stats["fresh_process_cases"] = len(pick)
+    for k, fr in zip(pick, fresh):
+        res.oracle_runs += 1
+        if json.loads(json.dumps([k["impl"]["tree"], k["impl"]["tuple"]])) != fr:
+            res.oracle_violations.append({"what": "tree built in this process differs from the tree a fresh process builds for the same input",
+                                          "input": tree_case_json(k), "observed": {"fresh": fr}, "signature": "C20:fresh"})
     for k in tcases:
-        if "impl" not in k:
-            k["impl"] = run_tree(V, k["c"], k["S"], k["WO"], k["IRV"], f=mapper(k))
         stats["n_candidates"][k["ncand"]] = stats["n_candidates"].get(k["ncand"], 0) + 1
         stats["styles"][k["style"]] = stats["styles"].get(k["style"], 0) + 1
         if "tree" in k["impl"]:
@@ -861,7 +1055,7 @@ def run(ctx, res):
                 "an independent forward search over elimination orders; then, per candidate-id set, 4-8 builds on the SAME WOLosers/IRVElims list objects edited in place between builds (pop, append, replace, set inside a tuple altered, clear, reverse, refill) or dropped and re-created, the oracle run on every build; groups of 3-6 consecutive calls over one candidate-id set (2-6 candidates) with different assertion sets: sufficient sets "
                 "built by brute force on the meaning of the assertions, the same minus one assertion, with duplicated tuples (same / flipped "
                 "proved flag), random, mutually inconsistent, NEN with empty eliminated set, assertions naming the alternative winner, "
-                "foreign candidate ids, none; trees also built from parseAssertions output; parse files in both dialects (assertion_json "
+                "foreign candidate ids, none; builds run in a random interleaving of all contests, 6% built again later, 12% rebuilt after the caller emptied / spoiled the first tree, eliminated sets as set or frozenset, a sample rebuilt in a fresh process, buildPrintedResults (drawing stubbed) compared with the direct construction and the surviving orders; trees also built from parseAssertions output; logs re-serialised with sorted keys, keys reordered and unknown keys added at every level, already_eliminated as list/tuple/set/frozenset in any order, int candidate ids (RAIRE dialect), every log parsed twice; parse files in both dialects (assertion_json "
                 "full/short/long/absent, unknown types, contest selection, proved encodings); non-trivial = at least one assertion, "
                 "distinct by (c, S, assertions)")
     res.samples = [tree_case_json(k) for k in tcases[:3]] + [parse_case_json(k) for k in pcases[:1]]
